@@ -74,6 +74,21 @@ pub fn gen_ops(rng: &mut Rng, n: usize, conflict_bias: bool) -> Vec<DOp> {
     ops
 }
 
+/// `gen_ops` plus index-set changes over the populated collection.
+pub fn gen_ops_reindex(rng: &mut Rng, n: usize, conflict_bias: bool) -> Vec<DOp> {
+    let mut ops = gen_ops(rng, n, conflict_bias);
+    // index create (+ backfill) / remove over a populated collection
+    if rng.chance(2, 5) {
+        let at = rng.range(1, ops.len() as u64) as usize;
+        ops.insert(at, DOp::Reindex { set: rng.below(128) as u8 });
+        if rng.chance(1, 3) {
+            let at = rng.range(1, ops.len() as u64) as usize;
+            ops.insert(at, DOp::Reindex { set: rng.below(128) as u8 });
+        }
+    }
+    ops
+}
+
 pub fn generate_seq(case_seed: u64, idx: u64, tier: Tier, flavor: &str) -> SeqCase {
     let mut rng = Rng::stream(case_seed, "seq");
     let mut knobs = Knobs::generate(&mut rng);
@@ -85,7 +100,7 @@ pub fn generate_seq(case_seed: u64, idx: u64, tier: Tier, flavor: &str) -> SeqCa
         knobs.indexes |= IX_NAME | IX_AGE_SCORE | IX_TAGS;
     }
     let bias = flavor == "c04" || rng.chance(1, 3);
-    let ops = gen_ops(&mut rng, n, bias);
+    let ops = gen_ops_reindex(&mut rng, n, bias);
     let clock = match rng.below(4) {
         0 => ClockMode::Frozen,
         1 | 2 => ClockMode::Tick(2),
@@ -115,7 +130,8 @@ pub fn generate_seq(case_seed: u64, idx: u64, tier: Tier, flavor: &str) -> SeqCa
 /// Harness-owned observation: the fault plan is suspended while it runs.
 fn observe_quiet(sim: &Sim, world: &World, knobs: &Knobs, max_id: u64) -> Result<Obs, Violation> {
     let saved = sim.take_faults();
-    let r = block(observe(&world.coll, knobs.indexes, &world.vocab, max_id));
+    let _ = knobs;
+    let r = block(observe(&world.coll, world.knobs.indexes, &world.vocab, max_id));
     sim.set_faults(saved);
     r
 }
@@ -180,9 +196,16 @@ pub fn run_seq(case: &SeqCase, rep: &mut RunReport) -> Result<(), Violation> {
     let mut suspect = false;
     // ids handed out since the handle was last (re)loaded from storage
     let mut handed_this_boot: std::collections::BTreeSet<u64> = Default::default();
+    // the index set in effect (DOp::Reindex changes it)
+    let mut cur_ix = knobs.indexes;
+    let with_ix = |ix: u8| {
+        let mut k = knobs.clone();
+        k.indexes = ix;
+        k
+    };
     for (i, op) in case.ops.iter().enumerate() {
         store.set_marker(i as u64 + 1);
-        let exp = model.expect(op, knobs.indexes, &world.vocab);
+        let exp = model.expect(op, cur_ix, &world.vocab);
         let before_obs = if case.observe_each && matches!(exp, Expect::Reject(_)) {
             Some(observe_quiet(&sim, &world, knobs, max_id).map_err(|mut v| {
                 v.message = format!("before op#{i}: {}", v.message);
@@ -212,7 +235,7 @@ pub fn run_seq(case: &SeqCase, rep: &mut RunReport) -> Result<(), Violation> {
                 rep.probe("handle_poisoned_after_fault", 1);
             }
             sim.clear_faults();
-            let need_restart = *recover == Recover::Restart || matches!(op, DOp::Reconnect) || (matches!(op, DOp::Reopen) && !poisoned);
+            let need_restart = *recover == Recover::Restart || matches!(op, DOp::Reconnect) || (matches!(op, DOp::Reopen | DOp::Reindex { .. }) && !poisoned);
             suspect = !need_restart && !poisoned;
             if need_restart || poisoned {
                 handed_this_boot.clear();
@@ -220,9 +243,9 @@ pub fn run_seq(case: &SeqCase, rep: &mut RunReport) -> Result<(), Violation> {
             if need_restart {
                 let s2 = world.store.clone();
                 drop(world);
-                world = World::boot(&s2, knobs).map_err(|e| violation!("c01.reopen-failed", "restart after faulted op#{i} {op:?} failed: {e:?}"))?;
+                world = World::boot(&s2, &with_ix(cur_ix)).map_err(|e| violation!("c01.reopen-failed", "restart after faulted op#{i} {op:?} failed: {e:?}"))?;
             } else if poisoned {
-                let ix = knobs.indexes;
+                let ix = cur_ix;
                 let c = block(world.db.open_collection(COLL.to_string(), async |c| install_indexes(c, ix).await))
                     .map_err(|e| violation!("c01.reopen-failed", "open_collection after poisoned handle (op#{i} {op:?}) failed: {e:?}"))?;
                 if c.is_poisoned() {
@@ -258,6 +281,18 @@ pub fn run_seq(case: &SeqCase, rep: &mut RunReport) -> Result<(), Violation> {
             model.ext = obs.ext.clone();
             max_id = max_id.max(obs.docs.keys().copied().max().unwrap_or(0));
             ok = false;
+            if matches!(op, DOp::Reindex { .. }) {
+                // the application retries the interrupted index change; it must get through
+                world.knobs.indexes = cur_ix;
+                let out2 = block(world.exec(op));
+                if matches!(out2, Outcome::Err { .. }) {
+                    return Err(violation!("c01.reindex-retry-failed", "after faulted op#{i} {op:?} and recovery, the retried index change failed: {out2:?}"));
+                }
+                cur_ix = indexes_after(cur_ix, op);
+                handed_this_boot.clear();
+                suspect = false;
+                rep.probe("faulted_reindex_retried", 1);
+            }
         } else {
             check_outcome(i, op, &exp, &out)?;
             if let Outcome::AddOk(id) = &out {
@@ -276,9 +311,20 @@ pub fn run_seq(case: &SeqCase, rep: &mut RunReport) -> Result<(), Violation> {
             }
             if ok {
                 model.apply(op, &exp, new_id);
-                if matches!(op, DOp::Reopen | DOp::Reconnect) {
+                if matches!(op, DOp::Reopen | DOp::Reconnect | DOp::Reindex { .. }) {
                     handed_this_boot.clear();
                     suspect = false;
+                }
+                if matches!(op, DOp::Reindex { .. }) {
+                    let new = indexes_after(cur_ix, op);
+                    rep.probe("index_set_changes", 1);
+                    if new & !cur_ix != 0 {
+                        rep.probe("indexes_created_over_documents", (new & !cur_ix).count_ones() as u64);
+                    }
+                    if cur_ix & !new != 0 {
+                        rep.probe("indexes_removed", (cur_ix & !new).count_ones() as u64);
+                    }
+                    cur_ix = new;
                 }
             }
             if let Some(b) = before_obs {
@@ -333,9 +379,12 @@ pub fn run_seq(case: &SeqCase, rep: &mut RunReport) -> Result<(), Violation> {
     let mut evals = 1u64;
     let mut sigs: Vec<u64> = Vec::new();
     if let SeqMode::Sweep { nested_stride } = &case.mode {
-        let cc = CrashCheck { knobs, ledger: &ledger, ops: &case.ops, seed: case.seed, reboot_delta: case.reboot_delta };
         let nforks = forks.len();
         for (fi, f) in forks.into_iter().enumerate() {
+            // the application reopens with the index set it wants once the
+            // operation in flight (if it is an index change) is through
+            let kf = with_ix(indexes_at(knobs.indexes, &case.ops, f.marker as usize));
+            let cc = CrashCheck { knobs: &kf, ledger: &ledger, ops: &case.ops, seed: case.seed, reboot_delta: case.reboot_delta };
             if let Some(only) = case.only_fork {
                 if only != fi {
                     continue;
@@ -372,6 +421,8 @@ pub fn run_seq(case: &SeqCase, rep: &mut RunReport) -> Result<(), Violation> {
         }
         // crash after the last mutation (nothing in flight)
         if case.only_fork.is_none() {
+            let kf = with_ix(cur_ix);
+            let cc = CrashCheck { knobs: &kf, ledger: &ledger, ops: &case.ops, seed: case.seed, reboot_delta: case.reboot_delta };
             let ctx = "crash after the last backend mutation".to_string();
             let mut b = cc.boot_fork(store.disk().fork(), end_clock, true, false, &ctx)?;
             let obs = cc.verify(&mut b, case.ops.len(), &ctx, rep)?;
